@@ -4,6 +4,8 @@ Streams (model `Wpull.HttpWire` vs the real code in the wpull tree under test):
   decode   (shared with C08) lock-step co-simulation of Stream.read_response/read_body;
            for C04 the compared component is `notified` = concatenation of the
            notify_read data = what the recorder appends to the response block
+  redirect the recorder behind the REAL WebClient/WebSession following redirects whose Location
+           is not normalised: record URIs == the URL on the wire                  oracle only
   fault    the recorder's block file / write_record raises OSError(ENOSPC) once at the k-th
            response_data / request_data write or end_request / end_response      oracle only
   overlap  two REAL WebSessions over ONE real ConnectionPool (worker A still inside its `with`
@@ -400,6 +402,74 @@ def fixed_tworuns():
     return out
 
 
+# ------------------------------------------------------------------ redirects: the record URIs are the URL on the wire
+LOCATIONS = [b'/page', b'/page#anchor', b'page#anchor', b'http://h/other#frag', b'HTTP://H:80/a/../Target%20Page?x=1#section-2',
+             b'http://EXAMPLE.test:80/a/./b/../c', b'//h/abs/./path', b'?q=1#f', b'../up/x', b'/a b/c d', b'/p?x=a b#y',
+             b'http://h:80/', b'http://H', b'/%7Euser/%41', b'/caf%c3%a9#top', b'#only', b'/x#', b'http://h/./#a#b']
+
+
+def redirect_cases(rng, n):
+    cases = [{'stream': 'redirect', 'location': loc, 'code': code, 'hops': 1} for loc in LOCATIONS for code in (301, 302)]
+    cases += [{'stream': 'redirect', 'location': loc, 'code': 307, 'hops': 2, 'start': 'http://h/start/deep/x'} for loc in LOCATIONS[:6]]
+    for _ in range(n):
+        host = rng.choice([b'', b'', b'http://h', b'http://H:80', b'HTTP://Other.Test', b'//h'])
+        path = rng.choice([b'/a', b'/a/../b', b'/./c', b'/d e', b'/%41', b'/x/y/../../z', b'']) if host else rng.choice([b'/a/../b', b'rel/./x', b'../y', b'/d e'])
+        loc = host + path + rng.choice([b'', b'?k=v', b'?k=a b']) + rng.choice([b'', b'#frag', b'#', b'#a b'])
+        if loc:
+            cases.append({'stream': 'redirect', 'location': loc, 'code': rng.choice([301, 302, 303, 307, 308]), 'hops': 1})
+    return cases
+
+
+def stream_redirect(ctx, cases):
+    """Oracle only.  For every exchange the WebSession makes: the request record and the response
+    record carry the same WARC-Target-URI, and it is the URL on the wire (http:// + Host value +
+    request-target); the response names that request as concurrent."""
+    from wpull.warc.recorder import WARCRecorderParams
+    tmp = tempfile.mkdtemp(prefix='c04r-')
+    try:
+        for i, case in enumerate(cases):
+            prefix = os.path.join(tmp, 'r%d' % i)
+            params = WARCRecorderParams(compress=False, log=False, temp_dir=tmp, software_string='verif', digests=i % 2 == 0)
+            out = H.real_redirect(case, {'filename': prefix, 'params': params})
+            try:
+                records = [(f, b) for f, b in H.read_warc(prefix + '.warc') if f.get('warc-type') != 'warcinfo']
+            except H.WarcFormatError as err:
+                ctx.fail('record-length', 'WARCRecorder', case, str(err))
+                continue
+            finally:
+                if os.path.exists(prefix + '.warc'):
+                    os.remove(prefix + '.warc')
+            ctx.case(('redirect', case['location'], case['code'], case['hops']),
+                     tags=['redirect:requests=%d' % len(out['requests']), 'redirect:' + (out.get('error') or 'ok')])
+            reqs = [(f, b) for f, b in records if f.get('warc-type') == 'request']
+            resps = [(f, b) for f, b in records if f.get('warc-type') in ('response', 'revisit')]
+            done = len(out['responses'])
+            if len(reqs) != len(out['requests']) or len(resps) != done:
+                ctx.fail('record-sequence', 'HTTPWARCRecorderSession', case, '%d requests on the wire, %d completed exchanges; %d request / %d response records'
+                         % (len(out['requests']), done, len(reqs), len(resps)))
+                continue
+            for k, ((host, target), (qf, qb)) in enumerate(zip(out['requests'], reqs)):
+                wire = 'http://' + host + target
+                if qf.get('warc-target-uri') != wire:
+                    ctx.fail('record-target', 'begin_request', case, 'exchange %d: request record filed under %r, the request on the wire is for %r'
+                             % (k, qf.get('warc-target-uri'), wire))
+                if k < len(resps):
+                    pf, pb = resps[k]
+                    if pf.get('warc-target-uri') != wire or pf.get('warc-target-uri') != qf.get('warc-target-uri'):
+                        ctx.fail('record-target', 'begin_response', case,
+                                 'exchange %d: response record filed under %r; its request record says %r and the request on the wire was for %r '
+                                 '(Location: %r)' % (k, pf.get('warc-target-uri'), qf.get('warc-target-uri'), wire, case['location']))
+                    if pf.get('warc-concurrent-to') != qf.get('warc-record-id'):
+                        ctx.fail('concurrent-to', 'begin_response', case, 'exchange %d: response is concurrent to %r, request id is %r'
+                                 % (k, pf.get('warc-concurrent-to'), qf.get('warc-record-id')))
+                    if pb != out['sent'][k]:
+                        ctx.fail('response-block-not-wire', 'response_data', case, 'exchange %d: response block differs from the bytes sent' % k)
+        if cases:
+            ctx.sample({'stream': 'redirect', 'cases': len(cases)})
+    finally:
+        shutil.rmtree(tmp, ignore_errors=True)
+
+
 # ------------------------------------------------------------------ faults on the recorder side
 FAULT_POINTS = ('response_data', 'request_data', 'end_request', 'end_response')
 
@@ -564,7 +634,9 @@ def stream_overlap(ctx, cases):
 
 def replay(ctx, case, kind=None, where=None):
     case = case.get('case', case)
-    if case.get('stream') == 'overlap':
+    if case.get('stream') == 'redirect':
+        stream_redirect(ctx, [case])
+    elif case.get('stream') == 'overlap':
         stream_overlap(ctx, [case])
     elif case.get('stream') == 'fault':
         exs = []
@@ -643,6 +715,7 @@ def run(ctx):
         seqs.append((gen_exchanges(wrng, opts, dedup=(i % 5) in (1, 2)), opts))      # 40% of the sequences run with --warc-dedup
     stream_warc(ctx, fixed_dedup_sequences() + seqs)
     stream_overlap(ctx, overlap_cases(ctx.subrng('overlap'), ctx.scale(60, 1500)))
+    stream_redirect(ctx, redirect_cases(ctx.subrng('redirect'), ctx.scale(60, 1500)))
     stream_fault(ctx, fault_cases(ctx.subrng('fault'), ctx.scale(80, 2000)))
     trng = ctx.subrng('tworuns')
     stream_tworuns(ctx, fixed_tworuns() + [gen_tworuns(trng) for _ in range(ctx.scale(60, 1200))])
